@@ -5,7 +5,7 @@ import os
 from .. import env
 from ..core import rng_for, ContractViolation
 from ..ref import schnorr as rs, secp
-from .common import RngShim, rand_bytes, keys_boundary
+from .common import RngShim, rand_bytes, keys_boundary, keys_endo
 
 PROP = "C12"
 REPEAT_SAMPLE = {"quick": 15, "thorough": 60}   # expensive cases: small repeat pass
@@ -29,7 +29,7 @@ def gen_cases(tier, seed):
     rng = rng_for("C12", tier, seed)
     q = tier == "quick"
     yield "vectors", {}
-    keys = [1, 2, 3, N - 1, N - 2] + keys_boundary()[:10]
+    keys = [1, 2, 3, N - 1, N - 2] + keys_boundary()[:10] + keys_endo()
     for i in range(140 if q else 2500):
         d = keys[i % len(keys)] if i % 4 == 0 else rng.randrange(1, N)
         cls = ["any", "odd_y", "pk_leading_zero"][i % 3] if i % 2 else "any"
@@ -146,6 +146,13 @@ def run_case(kind, params, ctx):
                     aux = None
                 else:
                     aux = sh.tokens[0]
+                # "omitted (random) aux": the auxiliary randomness is drawn per signature - two signatures of the same
+                # (key, message) made without aux differ (they coincide with probability 2^-256 otherwise)
+                got2 = bytes(b340.sign(sk, msg))
+                ctx.count("sign.aux_omitted_pairs")
+                if got2 == got:
+                    ctx.violation("sign/aux-omitted-not-fresh", f"two calls sign(d={d:#x}, msg {len(msg)} bytes) without aux returned the identical signature {got.hex()}: "
+                                  f"the auxiliary randomness is not drawn per signature ({len(sh.tokens)} token_bytes draws observed during the first call)")
             elif auxk == "grind_rx0":
                 aux = None
                 for t in range(4000):
